@@ -99,3 +99,23 @@ impl<K, N, E> Node<K, N, E> {
     // node. Contracts that touch adjacency require !detached().
     pub uninterp spec fn detached(&self) -> bool;
 }
+
+// serde's SeqAccess (a generic trait object of the deserializer): the i-th `next_element::<T>()`
+// yields what the document holds at position i when read as a T -- an error (ill-typed or truncated
+// input), None (sequence exhausted) or Some(value). TRUSTED shim; the reads themselves are serde's.
+#[verifier::external_body]
+pub struct DocId { _p: core::marker::PhantomData<u8> }
+pub uninterp spec fn elem_of<T>(d: DocId, i: nat) -> Result<Option<T>, ()>;
+
+#[verifier::external_body]
+pub struct SeqDoc { _p: core::marker::PhantomData<u8> }
+impl SeqDoc {
+    pub uninterp spec fn doc(&self) -> DocId;
+    pub uninterp spec fn pos(&self) -> nat;
+    #[verifier::external_body]
+    pub fn next_element<T>(&mut self) -> (r: Result<Option<T>, ErrMsg>)
+        ensures final(self).doc() == old(self).doc(), final(self).pos() == old(self).pos() + 1,
+            elem_of::<T>(old(self).doc(), old(self).pos()).is_err() <==> r.is_err(),
+            r.is_ok() ==> Ok::<Option<T>, ()>(r.unwrap()) == elem_of::<T>(old(self).doc(), old(self).pos()),
+    { unimplemented!() }
+}
